@@ -123,9 +123,23 @@ def main():
     if scope['builds'] >= 3:
         seqs += [(a, b, c) for a in b1[::11] for b in b1[::7] for c in b1[::5]]
     shard, nshards = (int(sys.argv[3]), int(sys.argv[4])) if len(sys.argv) > 4 else (0, 1)
+    # distinct scenarios only (canonical form: the builds in order, modules sorted)
+    canon = {}
+    for builds in seqs:
+        canon.setdefault(repr([sorted(b.items()) for b in builds]), builds)
+    seqs = list(canon.values())
+    nontrivial = 0
+    sample = None
     for builds in seqs[shard::nshards]:
         n += 1
         cur = []
+        # non-trivial: two different OIDs of the scenario are in a string-prefix relation, i.e. the compaction of
+        # the "oids" section has a decision to take
+        alloids = sorted({o for b in builds for r in b.values() for o in r[0]})
+        if any(a != b_ and b_.startswith(a) for a in alloids for b_ in alloids):
+            nontrivial += 1
+            if sample is None:
+                sample = [{m: [sorted(r[0]), r[1], r[2], list(r[3])] for m, r in b.items()} for b in builds]
 
         def clause_fail(clause, msg, builds=builds):
             if clause not in fails:
@@ -139,7 +153,8 @@ def main():
                'every_oid_is_covered_by_a_component_wise_prefix_naming_its_module',
                'a_module_is_listed_only_under_oids_it_defines', 'reindexing_the_same_results_changes_nothing',
                'no_exception']
-    print(json.dumps({'scenarios': n, 'scope': scope, 'clauses': clauses, 'fails': fails}))
+    print(json.dumps({'scenarios': n, 'nontrivial': nontrivial, 'sample': sample, 'scope': scope, 'clauses': clauses,
+                      'fails': fails}))
 
 
 if __name__ == '__main__':
